@@ -596,6 +596,13 @@ def copy_request_done(
             transfer_completed=utcfromtimestamp(end_time),
         ).where(ArchiveFileCopyRequest.id == req.id).execute()
 
+        # Run post-add actions, if any.  This is part of the same
+        # transaction: otherwise a daemon killed (or a DB error) between
+        # completing the request and running the autosync/autoclean rules
+        # would lose those rules for this file for good, since a completed
+        # request is never looked at again.
+        post_add(io.node, req.file)
+
     # Update metrics
     metrics.by_name("requests_completed").inc(
         type="copy",
@@ -612,9 +619,6 @@ def copy_request_done(
         counter=True,
         bound={"node_from": req.node_from.name, "group_to": req.group_to.name},
     ).add(req.file.size_b)
-
-    # Run post-add actions, if any
-    post_add(io.node, req.file)
 
     return True
 
